@@ -132,3 +132,19 @@ def pre_noise(case):
 def reset_after_violation():
     for _ in range(2):
         sut.compile_text(RESET_TEXT)
+
+
+def short_value(v):
+    """a printable stand-in for values whose repr is huge or impossible (ints beyond CPython's int->str limit, lone surrogates)"""
+    if isinstance(v, int) and not isinstance(v, bool) and v.bit_length() > 200:
+        return "<int of %d bits>" % v.bit_length()
+    if isinstance(v, str):
+        v = v.encode("utf-8", "backslashreplace").decode("utf-8")
+        return v[:40] + "..." if len(v) > 60 else v
+    if isinstance(v, (tuple, list)):
+        return type(v)(short_value(x) for x in v)
+    return v
+
+
+def short_env(env):
+    return {k: short_value(v) for k, v in env.items()}
